@@ -445,9 +445,10 @@ def family_renames():
            fn("q", ["b"], ["t"])], "renames/input-not-entrypoint"
     yield [fn("p", ["x"], ["v"]), sub("A", [sub("B", inner, rin={"a": "w"}, rout={"c": "u"})], rin={"w": "v"}, rout={"u": "o"}),
            fn("q", ["o"], ["t"])], "renames/nested-both"
+    yield [fn("p", ["x"], ["q"]), sub("B", [sub("D", [fn("f", ["q"], ["m"])], rin={"q": "x"}), fn("h", ["q"], ["n"])])], "renames/same-name-in-renamed-scope"
 
 
-FAMILIES = [family_consumers, family_producers, family_control, family_ordering, family_inputs]
+FAMILIES = [family_consumers, family_producers, family_control, family_ordering, family_inputs, family_renames]
 
 
 class RandomPrograms:
